@@ -11,6 +11,7 @@ import (
 	"fmt"
 	"math/big"
 	"strings"
+	"sync"
 	"time"
 
 	"github.com/notaryproject/notation-core-go/revocation"
@@ -392,7 +393,8 @@ func execute(r *core.Run, c *Case, routes bool) {
 	} else if t != nil {
 		refNoTime = refmodel.CodeSigningChainOK(certs, nil)
 	}
-	v, _ := revocation.NewWithOptions(revocation.Options{OCSPHTTPClient: sims.DeadClient(), CRLFetcher: sims.NewFetcher(), CertChainPurpose: pur})
+	// one validator per purpose for the whole run, as an application would hold it
+	v := sharedValidator(pur)
 	rs, rerr := v.ValidateContext(context.Background(), revocation.ValidateContextOptions{CertChain: certs})
 	r.Eval(1)
 	if refNoTime != (rerr == nil) || (rerr != nil && (!sims.IsInvalidChain(rerr) || rs != nil)) {
@@ -469,6 +471,25 @@ func execute(r *core.Run, c *Case, routes bool) {
 		}
 		r.Count("envelope-sign-route", 1)
 	}
+}
+
+var (
+	valMu sync.Mutex
+	vals  = map[purpose.Purpose]revocation.Validator{}
+)
+
+func sharedValidator(p purpose.Purpose) revocation.Validator {
+	valMu.Lock()
+	defer valMu.Unlock()
+	if v, ok := vals[p]; ok {
+		return v
+	}
+	v, err := revocation.NewWithOptions(revocation.Options{OCSPHTTPClient: sims.DeadClient(), CRLFetcher: sims.NewFetcher(), CertChainPurpose: p})
+	if err != nil {
+		panic(err)
+	}
+	vals[p] = v
+	return v
 }
 
 func run(r *core.Run, ts bool) int {
